@@ -314,6 +314,32 @@ func (a *analyzer) analyze(fn *ssa.Function) *summary {
 				continue
 			}
 			o = o.clone()
+			// a phi of read results in the successor takes, on this edge, the interval and the distance-since-read of
+			// the value flowing in (`c := next(); for pred(c) { c = next() }`)
+			pi := -1
+			for k, pb := range succ.Preds {
+				if pb == b {
+					pi = k
+				}
+			}
+			for _, pin := range succ.Instrs {
+				ph, isPhi := pin.(*ssa.Phi)
+				if !isPhi {
+					break
+				}
+				delete(o.ints, ssa.Value(ph))
+				delete(o.marks, "n:"+ph.Name())
+				if pi < 0 {
+					continue
+				}
+				ev := a.res(o, ph.Edges[pi])
+				if cur, ok := o.ints[ev]; ok {
+					o.ints[ph] = cur
+					if m, ok := o.marks["n:"+ev.Name()]; ok {
+						o.marks["n:"+ph.Name()] = m
+					}
+				}
+			}
 			lk := fmt.Sprintf("loop%d", succ.Index)
 			if isBack(b, succ) {
 				m, ok := o.marks[lk]
@@ -549,6 +575,30 @@ func (a *analyzer) transferBlock(fn *ssa.Function, b *ssa.BasicBlock, st *state,
 				}
 			}
 		case *ssa.Return:
+			// forwarding: `return p.reader()` hands the possibly failed reader's result to the caller unchanged - the
+			// caller tests it (its own Q2 obligation). This return is then a failure return if the reader failed and a
+			// success return, with the reader's success guarantee, if it did not.
+			if st.dirty != nil {
+				forwarded := false
+				for _, r := range x.Results {
+					rv := a.res(st, r)
+					if rv == st.dirty {
+						forwarded = true
+					}
+					if ex, ok := rv.(*ssa.Extract); ok && ex.Tuple == st.dirty {
+						forwarded = true
+					}
+				}
+				if forwarded {
+					sum.canFail = true
+					sum.ovFail = max(sum.ovFail, st.ov)
+					sum.known = true
+					if m, ok := st.marks["c:"+st.dirty.Name()]; ok {
+						st.ov = min(st.ov, m.hi)
+					}
+					st.dirty = nil
+				}
+			}
 			// classify
 			fail := false
 			for _, r := range x.Results {
